@@ -14,7 +14,7 @@ REQUIRED = ['contours_first', 'yields_from_block', 'frontier', 'block_is_first_c
             'dilate_erode_subset', 'hatch_region_inside', 'level_within', 'hatch_line_within', 'coverage', 'outline_met', 'coverage_of_outline']
 RULE = ('Blocks: rectangles, discs, slivers 0.5..12 floor spacings wide, wedges, L / U / C / H shapes, dumbbells and three-pad chains '
         'whose necks vanish when inset, two pads joined by a neck with a dip in one pad, exactly square envelopes with a dip in the '
-        'top / bottom / side edge, thin rounded wedges whose first inset splits, all rotated by 0 / 90 degrees, and real blocks dug by TrenchColumn from coupler / S-bend layouts; '
+        'top / bottom / side edge, thin rounded wedges whose first inset splits, a small and a large pad joined by a thin neck, all rotated by 0 / 90 degrees, and real blocks dug by TrenchColumn from coupler / S-bend layouts; '
         'floor spacing 0.0005..0.01, 2..8 safe turns.  The real Trench.toolpath() runs with Trench.buffer_polygon wrapped by the '
         'harness to record the actual inset tree; the Lean model (c07.toolpath) replays the queue on that tree: the observed '
         'sequence must be the model\'s (contour rings equal to the exterior of the model\'s polygon, in its order; then one hatching '
@@ -43,6 +43,7 @@ CLAIM = {
 }
 
 KEYS = ('kind', 'par', 'd', 'turns', 'rot')
+TOOLPATH_LIMIT_S = 60.0      # the slowest tool-path of the thorough tier takes about 2 s (measured, reported in the evidence notes)
 
 
 # ------------------------------------------------------------------------------------------------------------------
@@ -93,6 +94,10 @@ def make_shape(kind, par, rot):
         p = sq.difference(cut)
     elif kind == 'rwedge':   # a thin wedge with rounded corners: its first inset splits off the tip, hatch line 0 lies on the edge
         p = geometry.Polygon([(0, 0), (par['a'], 0), (par['a'], par['b']), (0, par['c'])]).buffer(par['r'], quad_segs=64)
+    elif kind == 'pads_uneq':   # a small and a large pad joined by a thin neck: the small part is used up long before the large one
+        w1, w2, neck, hgt = par['a'], par['b'], par['c'], par['h']
+        p = shapely.union_all([geometry.box(0, 0, w1, hgt), geometry.box(w1 + 0.3 * w1, 0, w1 + 0.3 * w1 + w2, hgt),
+                               geometry.box(w1 - 0.01 * w1, hgt / 2 - neck / 2, w1 + 0.31 * w1, hgt / 2 + neck / 2)])
     elif kind == 'rrect':    # rounded rectangle whose corner radius is about one spacing: the inset leaves degenerate corner pieces
         p = geometry.box(0, 0, par['a'], par['b']).buffer(par['r'], quad_segs=256).simplify(5e-7)
     elif kind == 'dug':
@@ -129,7 +134,7 @@ def dug_block(par):
 def gen_case(rng):
     d = rng.choice([0.0005, 0.001, 0.002, 0.005, 0.01])
     turns = rng.choice([2, 2, 3, 5, 8])
-    kind = rng.choice(['rect', 'disc', 'sliver', 'wedge', 'L', 'U', 'C', 'H', 'dumbbell', 'pads3', 'lobes', 'square_dip', 'rwedge', 'rrect', 'rrect', 'dug', 'dug'])
+    kind = rng.choice(['rect', 'disc', 'sliver', 'wedge', 'L', 'U', 'C', 'H', 'dumbbell', 'pads3', 'lobes', 'square_dip', 'rwedge', 'rrect', 'rrect', 'pads_uneq', 'pads_uneq', 'dug', 'dug'])
     u = rng.uniform
     if kind == 'rect':
         par = {'a': round(u(0.03, 0.6), 4), 'b': round(u(0.03, 0.4), 4)}
@@ -146,6 +151,10 @@ def gen_case(rng):
         par = {'a': round(u(0.03, 0.12), 4), 'b': round(d * u(1, 10), 5), 'c': round(u(0.1, 0.3), 4)}
         if kind == 'pads3':
             par['c'] = round(2 * par['a'] + u(0.02, 0.1), 4)
+    elif kind == 'pads_uneq':
+        turns = rng.choice([5, 8])
+        w1 = round(d * u(4, 2 * turns - 1), 5)          # consumed within the turns
+        par = {'a': w1, 'b': round(d * u(40, 120), 5), 'c': round(d * u(1.2, 3.0), 5), 'h': round(d * u(30, 80), 5)}
     elif kind == 'rrect':
         par = {'a': round(u(0.2, 0.6), 3), 'b': round(u(0.05, 0.2), 3), 'r': round(d * rng.choice([1.0, 1.0, 0.5, 2.0]), 5)}
         turns = rng.choice([2, 2, 3])
@@ -209,11 +218,18 @@ def check_case(ctx, case, nsample=3000):
     t = Trench(block, delta_floor=d, safe_inner_turns=turns)
     with Recorder() as rec:
         try:
-            with core.quiet():
+            import time as _time
+            _t0 = _time.time()
+            with core.quiet(), core.time_limit(TOOLPATH_LIMIT_S):
                 n = int(t.num_insets)
                 yields = [np.asarray(a, dtype=np.float64) for a in t.toolpath()]
+            ctx.slowest = max(getattr(ctx, 'slowest', 0.0), _time.time() - _t0)
         except core.InfraError:
             raise
+        except core.CallTimeout:
+            ctx.seen({'stream': 'floor', **info}, True)
+            ctx.fail('spec', 'finish', info, f'tool-path generation did not finish within {TOOLPATH_LIMIT_S} s', 'finish:timeout')
+            return None
         except Exception as e:
             ctx.seen({'stream': 'floor', **info}, True)
             ctx.fail('spec', 'finish', info, f'tool-path generation raised {type(e).__name__}: {e}', 'finish:raised')
@@ -253,7 +269,11 @@ def check_case(ctx, case, nsample=3000):
             if any(g.geom_type == 'LineString' and not g.is_empty for g in getattr(inter, 'geoms', [inter])):
                 drawn.append(i)
     req = {'op': 'c07.toolpath', 'tree': tree(0), 'n': n, 'drawn': drawn, 'w': q(w), 'h': q(h), 'd': q(d)}
-    # ---- measurements on the real yields
+    # ---- measurements on the real yields (bounded: a pathological output must not hang the check)
+    nvert = sum(a.shape[1] for a in yields if a.ndim == 2)
+    if nvert > 2_000_000:
+        ctx.fail('spec', 'finish', {**info, 'vertices': nvert}, f'the tool-path has {nvert} vertices', 'finish:huge')
+        return None
     ok = True
     shape_ok = True
     lines = []
@@ -279,7 +299,7 @@ def check_case(ctx, case, nsample=3000):
         pts = shapely.points(xs, ys)
         ins = shapely.contains(block, pts)
         if ins.any():
-            dd = shapely.distance(shapely.union_all(lines), pts[ins])
+            dd = shapely.distance(geometry.MultiLineString([list(l.coords) for l in lines]), pts[ins])
             worst = float(dd.max())
             if worst > 1.02 * d + 1e-5:
                 k = int(np.argmax(dd))
@@ -369,6 +389,7 @@ CORPUS = [
 def run(ctx):
     rng = ctx.rng
     jobs, reqs = [], []
+    ctx.slowest = 0.0
     n = ctx.n(140, 1600)
     for i in range(n + len(CORPUS)):
         case = dict(CORPUS[i]) if i < len(CORPUS) else gen_case(rng)
@@ -380,6 +401,7 @@ def run(ctx):
         jobs.append(r[1])
     for judge, m in zip(jobs, ctx.driver.ask(reqs)):
         judge(m)
+    ctx.notes.append(f'slowest tool-path generation of this run: {ctx.slowest:.2f} s (limit {TOOLPATH_LIMIT_S} s)')
 
 
 def replay(ctx, payload):
